@@ -225,7 +225,7 @@ thread_local!{
 // Note: I experimented with PREF_MANAGER being a Result<PreferenceManager> in the case of no rule files,
 //   but it ended up being a mess (lots of unwrapping). Having a field is much cleaner.
 //   Also note that if 'error' is not an empty string, SpeechRules can't work so using those requires a check.
-#[derive(Debug, Default)]
+#[derive(Debug, Default, Clone)]
 pub struct PreferenceManager {
     rules_dir: PathBuf,                   // full path to rules dir
     error: String,                        // empty/default string if fields are set, otherwise error message
@@ -290,15 +290,16 @@ impl PreferenceManager {
         return self.initialize_with_dir(&rules_dir);
     }
 
-    /// Do the work of initialize() -- if that fails, the previous rules dir stays in effect
+    /// Do the work of initialize() -- if that fails, the previous rules dir, preferences, and files stay in effect
     fn initialize_with_dir(&mut self, rules_dir: &Path) -> Result<()> {
-        let old_rules_dir = self.rules_dir.clone();
+        let old_state = self.clone();
         let result = self.set_rules_dir(rules_dir)
                 .and_then(|_| self.set_preference_files())
                 .and_then(|_| self.set_all_files(rules_dir));
         if result.is_err() {
-            // e.g., the dir exists but has no prefs.yaml -- don't leave the session pointing at a useless dir
-            self.rules_dir = old_rules_dir;
+            // e.g., the dir exists but has no prefs.yaml or no Languages dir -- don't leave the session pointing at a useless dir
+            //   or with the (maybe partial) preferences or speech files that were found before the failure
+            *self = old_state;
         }
         return result;
     }
